@@ -500,6 +500,52 @@ def collection_level(ctx):
                 ctx.violation("the VTIMEZONE of the upload, referenced by a component, is missing in the export", case)
 
 
+VTIMEZONE_B = [l for l in VTIMEZONE if not l.startswith("TZNAME")][:-1] + ["X-LIC-LOCATION:Europe/Berlin", "END:VTIMEZONE"]
+
+
+def individual_export_level(ctx):
+    """objects stored one by one (as different clients would), several of them with their own — textually different —
+    definition of the same time zone: the export holds every object, and each TZID once"""
+    rng = ctx.rng("individual")
+    for i in range(ctx.n(12, 300)):
+        k = rng.randint(2, 5)
+        with App({"auth": {"type": "none"}}) as app:
+            app.request("MKCALENDAR", "/u/cal/", login="u:pw")
+            uploaded = {}
+            ntz = 0
+            for j in range(k):
+                uid = "i%d_%d" % (i, j)
+                o = gen_calendar_object(rng, uid)
+                for _ in range(20):
+                    if not (i % 2 == 0 and j < 2) or o[3:4] == ["BEGIN:VTIMEZONE"]:
+                        break
+                    o = gen_calendar_object(rng, uid)      # in every other round the first two objects carry a time zone
+                if o[3:4] == ["BEGIN:VTIMEZONE"]:
+                    ntz += 1
+                    if rng.random() < 0.5:
+                        o = o[:3] + VTIMEZONE_B + o[3 + len(VTIMEZONE):]
+                body = "\r\n".join(o) + "\r\n"
+                st, _, _ = app.request("PUT", "/u/cal/%s.ics" % uid, body, login="u:pw", CONTENT_TYPE="text/calendar")
+                if st == 201:
+                    uploaded[uid] = body
+            st1, _, export = app.request("GET", "/u/cal/", login="u:pw")
+            case = {"objects": len(uploaded), "with_timezone": ntz}
+            ctx.case("export-of-individual-objects", sample=case, key=[i, "ind"], nontrivial=ntz > 1)
+            if st1 != 200:
+                ctx.violation("export of the collection answers %d" % st1, case)
+                continue
+            ex = parse_content(export)
+            comps = ex[2][0][2] if ex[2] else []
+            tzids = [v for c in comps if c[0] == "VTIMEZONE" for n_, p_, v in c[1] if n_ == "TZID"]
+            if len(tzids) != len(set(tzids)):
+                ctx.violation("a VTIMEZONE appears more than once in the export (TZIDs %s)" % tzids, dict(case, uploads=list(uploaded.values())[:5]))
+            if ntz and not tzids:
+                ctx.violation("the time zone definition of the stored objects is missing in the export", case)
+            uids = sorted(v for c in comps if c[0] != "VTIMEZONE" for n_, p_, v in c[1] if n_ == "UID")
+            if sorted(set(uids)) != sorted(uploaded):
+                ctx.violation("the export holds objects %s, stored were %s" % (sorted(set(uids)), sorted(uploaded)), case)
+
+
 def witnesses(ctx):
     """the two unsafe shapes, on the running server: served content is not a fixed point"""
     shapes = {"F5": "DESCRIPTION:a" + " " * 150 + "b",
@@ -534,4 +580,5 @@ def run(ctx):
         fold_level(ctx)
     object_level(ctx)
     collection_level(ctx)
+    individual_export_level(ctx)
     witnesses(ctx)
